@@ -329,7 +329,8 @@ class DerivTable(Contract):
 
 
 def contracts():
-    return [DerivTable()]
+    from contracts import C04b
+    return [DerivTable()] + C04b.contracts()
 
 
 TRUSTED = ['Lean 4.33 kernel + Mathlib (HasDerivAt lemmas for the elementary functions); the generated statement is the AST of the deriv lambda translated by contracts/C04.py',
